@@ -343,6 +343,21 @@ var Helpers = []*HelperEntity{
 			return one(c)
 		},
 		Model: func(p []int, in [][]F) [][]F { return [][]F{mapModel(in[0], func(v F) F { return -v })} }},
+	{Name: "helper.FieldPromoted", NIn: 1, // a field promoted from an embedded struct (asset rows embedding a price struct)
+		Build: func(p []int, in []<-chan F) []<-chan F {
+			rows := helper.Map(in[0], func(v F) *fieldOuter { return &fieldOuter{N: 7, fieldRow: fieldRow{A: v, B: 2 * v}} })
+			c, err := helper.Field[F](rows, "B")
+			if err != nil {
+				panic(err)
+			}
+			return one(c)
+		},
+		Model: func(p []int, in [][]F) [][]F { return [][]F{mapModel(in[0], func(v F) F { return 2 * v })} }},
+}
+
+type fieldOuter struct {
+	N int64
+	fieldRow
 }
 
 var helperByName = map[string]*HelperEntity{}
